@@ -101,6 +101,11 @@ def c04_conj(ctx, case):
     ctx.nontrivial(two_distinct(x) and float(np.max(np.abs(x.imag))) > 0)
     ctx.check(len(a) == nfft and len(b) == nfft, "%s: two-sided estimate has %d / %d values for NFFT=%d" % (row, len(a), len(b), nfft), sig=sig)
     est.compare_psd(ctx, row, b, a[(-np.arange(nfft)) % nfft], "%s: conjugation does not mirror the spectrum (NFFT=%d)" % (row, nfft), sig=sig)
+    if (nfft + len(x)) % 4 == 0:
+        # complex data are complex data whatever their precision: single-precision I/Q samples give a two-sided estimate too
+        c64 = est.psd_of(est.build(row, x.astype(np.complex64), p, NFFT=nfft, scale_by_freq=case.get("sbf", False)))
+        ctx.check(len(c64) == nfft, "%s: complex64 samples give %d values for NFFT=%d (complex128: %d): not a two-sided estimate"
+                  % (row, len(c64), nfft, len(a)), sig=dict(sig, clause="complex64"))
 
 
 @sub("C04.real", strategy=base_case(est.REAL_COMPLEX, "real"), quick=1600, thorough=30000, shards_quick=4,
